@@ -186,7 +186,7 @@ impl Check for C07 {
         awaited.sort();
         let mut remaining = awaited.clone();
         let mut produced = 0u64;
-        let r = run_query_until(&whole, f, 5_000, &mut |a: &Ans, _steps: u64| {
+        let r = run_query_until(&whole, f, 400, &mut |a: &Ans, _steps: u64| {
             produced += 1;
             let mut m = std::collections::BTreeMap::new();
             let t = a.tuple.rename_with(&mut m);
@@ -205,7 +205,7 @@ impl Check for C07 {
             out.count("obligations_met", awaited.len() as u64);
             out.count("answers_consumed", produced);
         } else {
-            let why = if r.budget_exceeded { format!("step budget F = {} exceeded", f) } else if r.ended { "the stream ended".to_string() } else { "5000 answers consumed (the unchanged engine needs fewer than 50 in every generated case)".to_string() };
+            let why = if r.budget_exceeded { format!("step budget F = {} exceeded", f) } else if r.ended { "the stream ended".to_string() } else { "400 answers consumed (the unchanged engine needs fewer than 50 in every generated case)".to_string() };
             out.violate(
                 "M-step",
                 "an answer that a branch yields on its own is not produced by the disjunction within the fairness bound",
